@@ -336,7 +336,8 @@ def judge(w, mod: Any, item: Dict[str, Any], twin: exprs.Twin, kwargs: Dict[str,
             key = "C07/all-quantifier-truth-test-returns-non-bool"
         elif isinstance(exc, RuntimeError) and "Failed to recompute" in str(exc):
             key = classify_recompute_failure(item["expr"], exc)
-        elif isinstance(exc, (SyntaxError, ValueError, AssertionError)) and form in ("default", "class"):
+        elif form in ("default", "class") and (isinstance(exc, SyntaxError) or (
+                isinstance(exc, (ValueError, AssertionError)) and ("decorator" in str(exc) or "lambda" in str(exc)))):
             key = "C07/decorator-source-not-recovered/" + item["layout"]
         w.violation(key, "layout {}: expected {} but got {}: {}".format(item["layout"], want_type.__name__, type(exc).__name__, str(exc)[:300]), case, detail)
         return
@@ -630,7 +631,7 @@ def run_generic(w, batch_no: int, n_items: int) -> None:
 def run(w) -> None:
     install_hook()
     all_layouts = layouts()
-    n_batches = 1200 if w.tier == "thorough" else 64
+    n_batches = 3000 if w.tier == "thorough" else 160
     for b in range(n_batches):
         if b % w.nshards != w.shard:
             continue
